@@ -53,15 +53,34 @@ def pkey(path):
     return ".".join(str(i) for i in path)
 
 
+def ann_value(e):
+    if e["ty"] == "s":
+        return '"%s"' % e["val"]
+    if e["ty"] == "l":
+        return "[%s]" % ", ".join(e["val"].split(","))
+    return e["val"]
+
+
 def emit(o, n, path, need, extra):
-    """renders node n required at precedence `need`; returns span of the node's own tokens"""
-    wrap = level(n) < need
+    """renders node n required at precedence `need`; returns span of the node's own tokens.
+    Annotations written on the node attach to its terminal: line annotations before it, one inline
+    annotation after it; a node that is not a term by itself is parenthesised first."""
+    anns = n.get("ann") or []
+    line = [e for e in anns if e["w"] == "line"]
+    inline = [e for e in anns if e["w"] == "inline"]
+    wrap = level(n) < (7 if anns else need)
     nwrap = (1 if wrap else 0) + (1 if pkey(path) in extra else 0)
+    for e in line:
+        if o.parts and not o.parts[-1].endswith("\n"):
+            o.raw("\n")
+        o.raw("# %s: %s\n" % (e["key"], ann_value(e)))
     for _ in range(nwrap):
         o.token("(")
     sp = emit_bare(o, n, path, extra)
     for _ in range(nwrap):
         o.token(")")
+    if inline:
+        o.token("`%s`" % ", ".join("%s: %s" % (e["key"], ann_value(e)) for e in inline))
     return sp
 
 
@@ -220,6 +239,8 @@ def render_module(stmts, style=0, extra_parens=()):
             e0 = o.token(";")
             ent["span"] = [s0[0], e0[1]]
         elif st["k"] == "decl":
+            for e in (st.get("ann") or []):
+                o.raw("# %s: %s\n" % (e["key"], ann_value(e)))
             s0 = o.token("let")
             nm = o.token(st["s"])
             ent["name"] = [nm[0], nm[1]]
